@@ -445,6 +445,11 @@ SUBS = {'aborted_deserialize': aborted_deserialize, 'checkpoint_api': checkpoint
 TIMEOUTS = {k: 120 for k in SUBS}
 
 
+# sub-spaces re-executed under other interpreter configurations (mc.core.CONFIGS): {configuration: {sub-space: stride}}
+# quick tier: every stride-th planned case, thorough tier: all planned cases
+CONFIG_PASSES = {'x64': {'arrays': 6, 'scalars': 3, 'state_rt': 1, 'checkpoint_api': 1}}
+
+
 def plan(ctx):
   th = ctx.tier == 'thorough'
   ctx.rule = ('full product dtype(15) x shape x layout x byte order, each as dict value / list item / top-level; all '
